@@ -3,7 +3,7 @@
    TLC, SchemaPathGen shape 100, and the enumerated shapes) with seeded random
    paths - valid prefixes, one-token corruptions, over-long tails, longer than the
    enumerated ones - calls ModelSet.Validate and logs one event per call:
-     [sid, p, inc, ok, at, tok]   (at / tok decoded from the structured error).
+     [sid, p, inc, ok, form, epath, tok, mv]   (type class, decoded Path and info tag of the error).
    Every event must be what the recursive definition prescribes for that schema:
    same verdict, and for a rejection the same offending position and that token.
    A deviating event is reported (FAILJSON) and validation continues.           *)
@@ -15,15 +15,34 @@ SchemaOf(sid) == Schemas[CHOOSE i \in 1..Len(Schemas) : Schemas[i].id = sid].kid
 
 VARIABLES l, nfail
 TInit == l = 1 /\ nfail = 0
+\* Does the structured error identify element `at` of the input (Len+1 = something is missing
+\* after the end)?  Only the error's type and fields count (decoded Path `epath`, info tag `tok`),
+\* not its wording:
+\*   unknown  (unknown-element error)  epath = the elements before `at`, info tag = that element
+\*   missing  (missing-element error)  epath = the whole input
+\*   value    (invalid-value error)    epath ends with the offending value; when epath is the whole
+\*            input it may also say that a value is missing after it (same type, same fields) -
+\*            unless the optional refinement mv holds (the message is the one of the code's own
+\*            missing-value constructor), then it says exactly that
+Identifies(e, at) ==
+  LET L == Len(e.epath) n == Len(e.p) IN
+  /\ L <= n /\ e.epath = SubSeq(e.p, 1, L)
+  /\ CASE e.form = "unknown" -> at = L + 1 /\ L < n /\ e.tok = e.p[L + 1]
+        [] e.form = "missing" -> at = L + 1 /\ L = n
+        [] e.form = "value"   -> IF L = n /\ e.mv THEN at = L + 1
+                                 ELSE (at = L /\ L > 0) \/ (at = L + 1 /\ L = n)
+        [] OTHER -> FALSE
+\* the position the error names, for the report (0 = none)
+GotAt(e) == IF e.ok THEN 0 ELSE IF \E a \in 1..(Len(e.p) + 1) : Identifies(e, a)
+            THEN CHOOSE a \in 1..(Len(e.p) + 1) : Identifies(e, a) /\ \A b \in 1..(a - 1) : ~Identifies(e, b) ELSE 0
 Judge(e) ==
   LET sch  == SchemaOf(e.sid)
       want == Rec(sch, e.p, e.inc)
       good == /\ want.ok = e.ok
-              /\ ~want.ok => /\ e.at = want.at
-                             /\ want.at <= Len(e.p) => e.tok = e.p[want.at]
+              /\ ~want.ok => Identifies(e, want.at)
   IN IF good THEN [good |-> TRUE]
      ELSE [good |-> FALSE, sid |-> e.sid, p |-> e.p, inc |-> e.inc, wantok |-> want.ok, wantat |-> want.at,
-           gotok |-> e.ok, gotat |-> e.at, gottok |-> e.tok, err |-> e.err,
+           gotok |-> e.ok, gotat |-> GotAt(e), gottok |-> e.tok, form |-> e.form, epath |-> e.epath,
            ph |-> IF want.ok THEN "end:" \o Run(sch, e.p).ph ELSE PhaseBefore(sch, e.p, want.at)]
 TStep == /\ l <= Len(Trace) /\ l' = l + 1
          /\ LET j == Judge(Trace[l]) IN
